@@ -53,10 +53,11 @@ CLAIMS = {
         "At quiescence the abstract histories are proved equal to the log of the executable reference executor (C01_quiescent_histories_are_the_reference_log). "
         "process.c/fossil.c/the queue are tied op by op to an executable worker model (TW/Worker.v) whose state and history-structure invariants are proved for every script, and the "
         "REFINEMENT worker model -> abstract machine is mechanised (TW/WorkerAbs.v, C01_worker_refines_the_abstract_machine): for every valid program with types below the reserved ones, every checkpoint "
-        "interval and every script of deliveries, late hand-backs and cancellations without GVT announcements, the worker state is related to a reachable abstract state (same grouped histories, "
-        "pool = pending non-notice messages, cancelled identities = flag words 1/3), so process.c's histories are the sequential execution below every bound under which nothing is pending, and at "
-        "quiescence each LP has processed exactly its sequential dispatch sequence (C01_worker_at_quiescence_has_processed_the_sequential_sequence).",
-   note=TB + "SC atomics at model level; the refinement is proved for scripts without GVT announcements (complete histories) and one worker thread hosting all LPs (arbitrary delivery orders): across fossil collections and for the multi-thread code it rests on the abstract theorem plus differential runs.",
+        "interval and EVERY script of deliveries, late hand-backs, cancellations, GVT announcements and the lazy fossil collections they trigger, the worker state is related to a reachable abstract state "
+        "(same grouped histories, the groups released by fossil collection kept as ghosts below the GVT; pool = pending non-notice messages, cancelled identities = flag words 1/3), so what an LP has "
+        "processed (released prefix ++ retained history) is the sequential execution below every bound under which nothing is pending, and at "
+        "quiescence exactly its sequential dispatch sequence (C01_worker_at_quiescence_has_processed_the_sequential_sequence).",
+   note=TB + "SC atomics at model level; the refinement is proved for every script (GVT announcements and fossil collections included) of ONE worker thread hosting all LPs (arbitrary delivery orders): for the multi-thread code it rests on the abstract theorem (all schedules) plus differential runs.",
    tech="Coq proof (invariants over all schedules of an abstract Time Warp machine + uniqueness of closed sorted histories) + differential runs against the extracted sequential executor"),
  "C03": dict(cat="proof", ref="DESIGN.md §5 C03",
    text="Theorems (Properties_C03.v, axiom-free): in every reachable state of the abstract machine and for every GVT value valid there, the part of an LP's history "
